@@ -110,4 +110,8 @@ func (w *World) ShareHandle() {
 		h = st
 		return h, nil
 	}
+	if w.Cfg.Backend == BackMem {
+		// the memory backend's medium IS the handle: observe through it
+		w.Peek = w.NewStore
+	}
 }
